@@ -179,6 +179,10 @@ def MUT():
     pass
 
 
+def MVARARGS(*args):  # not registrable: ovld refuses *args
+    return ("mvarargs",)
+
+
 class _V:
     def __init__(self, tag=0, kids=()):
         self.tag = tag
@@ -457,7 +461,9 @@ class World:
                 return ["ok", self.log.take(), jsonable(r)]
             else:
                 raise ValueError(kind)
-        except Exception as e:  # noqa: BLE001
+        except (Exception, SimInterrupt) as e:  # noqa: BLE001
+            # (SimInterrupt too: a library that stores an injected interrupt and raises it again
+            # from a later call must show up as that call's outcome)
             log = self.log.take()
             if isinstance(e, RecursionError):
                 log = log[:2] + ["..."]  # depth reached depends on the caller's own stack depth
